@@ -946,3 +946,33 @@ Proof.
     fix IHc 1. intros l F. destruct l; simpl in F |- *; [constructor|].
     apply andb_true_iff in F as [F1 F3]. apply andb_true_iff in F1 as [F1 F2]. constructor; auto using tr_e_rel.
 Qed.
+
+(* ====================================================================== *)
+(* What is missing, and what stands in the way                              *)
+(* ======================================================================
+   - for loops.  lx_r / lx_i declare the loop variable in the ENCLOSING frame (lv_decl) and
+     leave it there when the loop ends; Sem.v (as evalFor) gives the loop its own scope and
+     pops it.  With the frame-by-frame relation used here (same names in corresponding frames)
+     the two environments stop corresponding after the first loop.  A tie needs a static
+     side condition that lx_l cannot see: the loop variable is not declared or used outside
+     its loop (the parser's scoping).  Example where lx_l and Sem.v differ without it:
+         x := 1
+         if true
+             for x := range 2
+             end
+             x = 5          // lx_l: assigns the stale loop variable; Sem.v: the global x
+         end
+   - arrays and maps (literals, a[i], a[i:j], + and * on arrays).  The relation extends
+     (holds on HArr cells element-wise; copyOrRef shares the cell, which is harmless without
+     element stores; Vm.normalize_index and Sem.normalize_index agree, checked), but == on
+     arrays does not: Sem.equals walks at most value_depth = 4000 levels and then crashes
+     (Go: stack overflow), lx_l's val_equals has no bound, and `a = [a]` in a loop builds
+     values of any depth — so the statement needs a depth bound or must exclude == on arrays
+     by a dynamic condition.
+   - strings beyond ASCII.  Vm.value strings are UTF-8 bytes, Sem.v strings are code points:
+     the tie needs utf8_decode (utf8_encode s) = s and that byte-wise comparison of encodings
+     is code-point comparison, for valid code points; no such lemma exists yet.  (ASCII:
+     utf8_ascii above.)
+   - % : Vm.float_mod and Num.fmod are two definitions of math.Mod whose equality is not proved.
+   - the converse (lx_l undefined => Sem.v panics) is not an equivalence: x / 0 is undefined in
+     lx_l (the VM raises "division by zero") and +Inf in Sem.v (the evaluator divides). *)
